@@ -224,6 +224,8 @@ class StreamWriter(AbstractStreamWriter):
         self, status_line: str, headers: "CIMultiDict[str]"
     ) -> None:
         """Write headers to the stream."""
+        if self._headers_written:
+            raise RuntimeError("Cannot write headers, a message was started already")
         if self._on_headers_sent is not None:
             await self._on_headers_sent(headers)
         # status + headers
